@@ -25,7 +25,8 @@ THEOREMS = [
 LEVEL_TEXT = ("grouping checker soundness, general observable, bitmasks, shape of the appended measurement circuit + T11.4 (Walsh identity: parity-decoded outcomes of the appended circuit = the member's expectation value) proved in the Pauli-expectation semantics with standard projectors and the h/sx rows of the channel model; Qiskit's grouping is external and validated per run by the proved checker")
 RULE = ("Pauli lists on 1-6 qubits (duplicates, all-identity, mutually anticommuting sets, up to 40 entries) through ObservableCollection, "
         "most_general_observable (and the construct_general_observables hook) on compatible and incompatible lists incl. members clashing on 1-4 qubits "
-        "(even clash counts commute as a whole), measurement circuits for every group on random preparation circuits; "
+        "(even clash counts commute as a whole), measurement circuits for every group on random preparation circuits and on fixed ones that leave every "
+        "measured qubit in a superposition (decoded value by value and through a table of kept decoded values); "
         "non-trivial = some non-identity letter; distinct by payload")
 ASSUMPTIONS = ["PauliList.unique / group_commuting(qubit_wise=True) are Qiskit's: their output is validated per run by checkCollection (soundness proved)",
                "failing-input search decodes the measurement circuit's exact outcome distribution under the reference simulator"]
@@ -112,9 +113,41 @@ def _iterable_form_cases():
     return out
 
 
+def _table_cases():
+    """Deterministic family (seed independent): measurement circuits on preparation circuits that leave EVERY measured qubit in a proper
+    superposition in its measured basis (so that many register values occur, with member parities that differ from value to value), for
+    groups of one to five members on 1-4 qubits.  The failing-input search decodes these (like every other case) in the two orders a
+    caller can use: each register value decoded and used at once, and every register value decoded first (the decoded values kept in a
+    table) and weighted afterwards."""
+    specs = [
+        ("Z", ["Z"]),
+        ("X", ["X", "I"]),
+        ("ZY", ["ZY", "ZI", "IY"]),
+        ("XYZ", ["XYZ", "XII", "IYI", "IIZ", "XIZ"]),
+        ("ZIX", ["ZIX", "ZII", "IIX"]),
+        ("ZZXX", ["ZZII", "IIXX", "ZIXI", "IZIX"]),
+        ("YXZY", ["YXZY", "YIIY", "IXZI", "YXII", "IIII"]),
+    ]
+    out = []
+    for k, (gl, members) in enumerate(specs):
+        n = len(gl)
+        prep = []
+        for q in range(n):
+            prep.append({"name": ("ry", "rx", "ry")[(q + k) % 3], "qubits": [q], "params": [0.4 + 0.3 * q + 0.1 * k]})
+            prep.append({"name": "rz", "qubits": [q], "params": [0.9 - 0.2 * q]})
+        for q in range(n - 1):
+            prep.append({"name": ("cx", "cz")[(q + k) % 2], "qubits": [q, q + 1]})
+        for q in range(n):
+            prep.append({"name": ("rx", "ry")[(q + k) % 2], "qubits": [q], "params": [1.1 - 0.15 * q + 0.05 * k]})
+        out.append(("measure", {"n": n, "general": gl, "members": [{"l": m, "p": 0} for m in members], "prep": prep, "wrong_width": False,
+                                "locs": None, "ncirc": n, "cregs": [] if k % 3 else [["qpd_measurements", 1]], "always_oracle": True}))
+    return out
+
+
 def cases(rng, tier):
     yield from _clash_cases()
     yield from _iterable_form_cases()
+    yield from _table_cases()
     yield from _wide_cases(rng, tier)
     for n in (1, 2, 3):
         # groups with nothing to measure (the forced dummy measurement)
@@ -306,12 +339,38 @@ def nontrivial_key(kind, payload):
     return hash(json.dumps([kind, payload], sort_keys=True))
 
 
+class _Vals(list):
+    """decoded expectations, with a remark on how they were decoded when that matters"""
+    note = ""
+
+
 def _decode(qc_meas, cog, members, base=0):
     """Exact outcome distribution of the measurement circuit, decoded by mask parity.  `base` = number of classical bits in front of
     the observable register (registers that existed before; nothing is written to them here)."""
     from ..oracles import sem
     from qiskit_addon_cutting.cutting_reconstruction import _process_outcome, _process_outcome_v2
     br = sem.simulate(qc_meas)
+    # the other order of use: EVERY occurring register value is decoded first and the decoded values are kept (a decode table, one entry
+    # per value, through both decoders), the weighting with the probabilities happens afterwards
+    if not any(k0 & ((1 << base) - 1) for k0 in br):
+        table = [(k0 >> base, float(np.real(np.trace(rho))), _process_outcome(cog, k0 >> base)) for k0, rho in br.items()]
+        table2 = [(k0 >> base, float(np.real(np.trace(rho))), _process_outcome_v2(cog, k0 >> base, 0)) for k0, rho in br.items()]
+        for tb, nm in ((table, "_process_outcome"), (table2, "_process_outcome_v2")):
+            tv = np.zeros(len(members))
+            for k, p, vec in tb:
+                tv += p * np.asarray(vec, dtype=float)
+            ref = [sum(p * (-1) ** bin(k & int(mask)).count("1") for k, p, _ in tb) for mask in cog.pauli_bitmasks]
+            if not np.allclose(tv, ref, atol=1e-12):
+                out = _Vals(float(x) for x in tv)
+                out.note = f" [every register value decoded first with {nm}, the decoded values kept in a table and weighted afterwards"
+                for k, p, vec in tb:
+                    want = [(-1) ** bin(k & int(mask)).count("1") for mask in cog.pauli_bitmasks]
+                    if [float(x) for x in np.asarray(vec, dtype=float)] != [float(x) for x in want]:
+                        out.note += (f"; the kept value for register value {k:#b} now reads {[float(x) for x in np.asarray(vec, dtype=float)]}, "
+                                     f"the parities of that value are {want}")
+                        break
+                out.note += "]"
+                return out
     vals = [0.0] * len(members)
     v1 = np.zeros(len(members))
     v2 = np.zeros(len(members))
@@ -403,7 +462,7 @@ def oracle(kind, payload):
             qm = _append_measurement_circuit(_append_measurement_register(qc, g), g)
             dec = _decode(qm, g, g.commuting_observables)
             if not np.allclose(true, dec, atol=1e-9):
-                return f"decoded {dec} but true expectations are {true} for group {gl}{how}"
+                return f"decoded {list(dec)} but true expectations are {true} for group {gl}{how}{getattr(dec, 'note', '')}"
         return None
     # measure
     if payload["wrong_width"]:
@@ -433,7 +492,7 @@ def oracle(kind, payload):
         return f"appending measurements raised {type(ex).__name__}: {ex}"
     dec = _decode(qm, cog, payload["members"], base=sum(w for _, w in payload.get("cregs", [])))
     if not np.allclose(true, dec, atol=1e-9):
-        return f"decoded {dec} but true expectations are {true}"
+        return f"decoded {list(dec)} but true expectations are {true}{getattr(dec, 'note', '')}"
     # the group itself is a record of where its members act: using it must not change it
     want_idx = [i for i, ch in enumerate(payload["general"]) if ch != "I"]
     if [int(i) for i in cog.pauli_indices] != want_idx:
